@@ -258,7 +258,9 @@ def gen_case(rng, i, kinds):
             if r > 0.9:
                 meth = meth + 1
             m = Msg(cls, meth, tx, compat, flags)
-            if cls == 3:
+            if cls == 3 and rng.random() < 0.12:
+                pass        # an error-class answer WITHOUT an ERROR-CODE attribute
+            elif cls == 3:
                 code = rng.choice([300, 400, 401, 403, 420, 438, 487, 500])
                 m.add(A_ERR, bytes([0, 0, code // 100, code % 100]) + b"x")
             else:
@@ -487,6 +489,11 @@ def oracle(line, out, want=("C04", "C05", "C06", "C07")):
             if "C06" in want and st not in (1, 2) and p is None:
                 return "validation went past the length check (status %d) for bytes that are not well-formed" % st
             cls = p[0] if p else None
+            if st == 9 and p is not None and ("C04" in want or "C05" in want):
+                ea = [v for t_, v, _o in p[3] if t_ == A_ERR]
+                code = (ea[0][2] & 7) * 100 + ea[0][3] if ea and len(ea[0]) >= 4 else None
+                if cls != 3 or code != 403:
+                    return "validation reported FORBIDDEN for a message whose ERROR-CODE is %s (class %s): the status must come from a 403 error answer" % (code, cls)
             if st == 0 and p is not None and "C04" in want:
                 creds = (flags & (F_SHORT | F_LONG)) and not (flags & F_IGN)
                 mi = spec_find(p[3], A_MI, compat)
